@@ -103,6 +103,8 @@ type Dec struct {
 	// filled while decoding, for the callers
 	Inner *mt.ServerDHInnerData
 	GB    *big.Int
+	// plaintext TL bytes of the three inner-data objects, as recovered by the harness
+	PQPlain, SPlain, CPlain []byte
 }
 
 func U64(x int64) uint64 { return uint64(x) }
@@ -180,6 +182,7 @@ func (d *Dec) Client(i int, frame []byte) string {
 		ct := "X"
 		if k := d.Keys[uint64(r.PublicKeyFingerprint)]; k != nil {
 			if raw, err := crypto.DecodeRSAPad(r.EncryptedData, k); err == nil {
+				d.PQPlain = append([]byte(nil), raw...)
 				if in, err := mt.DecodePQInnerData(&bin.Buffer{Buf: raw}); err == nil {
 					nn := in.GetNewNonce()
 					n, sn := in.GetNonce(), in.GetServerNonce()
@@ -207,6 +210,7 @@ func (d *Dec) Client(i int, frame []byte) string {
 		}
 		ct := "X"
 		if key, iv, data := d.answer(r.EncryptedData); data != nil {
+			d.CPlain = append([]byte(nil), data...)
 			var in mt.ClientDHInnerData
 			if in.Decode(&bin.Buffer{Buf: data}) == nil {
 				d.GB = new(big.Int).SetBytes(in.GB)
@@ -246,6 +250,7 @@ func (d *Dec) Server(i int, frame []byte) string {
 			ct := "X"
 			// the client decrypts with the server nonce it accepted in ResPQ
 			if key, iv, data := d.answer(v.EncryptedAnswer); data != nil {
+				d.SPlain = append([]byte(nil), data...)
 				var in mt.ServerDHInnerData
 				if in.Decode(&bin.Buffer{Buf: data}) == nil {
 					d.Inner = &in
